@@ -1,0 +1,81 @@
+//go:build verif
+
+package result
+
+import (
+	"context"
+
+	beaconchain "github.com/keep-network/keep-core/pkg/beacon/chain"
+	"github.com/keep-network/keep-core/pkg/chain"
+	"github.com/keep-network/keep-core/pkg/net"
+	"github.com/keep-network/keep-core/pkg/protocol/group"
+)
+
+// Verification hook (build tag verif, property C13): drives the existing
+// result signing, signatures verification and result submission states one
+// after another and re-exports what they computed. No protocol logic is added.
+
+// VerifC13RunPublication initiates the result signing state (which signs the
+// result), feeds it the given network messages, then initiates the signatures
+// verification state and the result submission state. It returns the member's
+// own signature, the valid signatures map and the submission error.
+func VerifC13RunPublication(
+	ctx context.Context,
+	member *SigningMember,
+	channel net.BroadcastChannel,
+	beaconChain beaconchain.Interface,
+	blockCounter chain.BlockCounter,
+	result *beaconchain.DKGResult,
+	messages []net.Message,
+) ([]byte, map[group.MemberIndex][]byte, error, error) {
+	signingState := &resultSigningState{
+		channel:      channel,
+		beaconChain:  beaconChain,
+		blockCounter: blockCounter,
+		member:       member,
+		result:       result,
+	}
+	if err := signingState.Initiate(ctx); err != nil {
+		return nil, nil, nil, err
+	}
+	for _, message := range messages {
+		if err := signingState.Receive(message); err != nil {
+			return nil, nil, nil, err
+		}
+	}
+	next, err := signingState.Next()
+	if err != nil {
+		return nil, nil, nil, err
+	}
+	verificationState := next.(*signaturesVerificationState)
+	if err := verificationState.Initiate(ctx); err != nil {
+		return nil, nil, nil, err
+	}
+	next, err = verificationState.Next()
+	if err != nil {
+		return nil, nil, nil, err
+	}
+	submissionState := next.(*resultSubmissionState)
+	submitErr := submissionState.Initiate(ctx)
+
+	return member.selfDKGResultSignature,
+		verificationState.validSignatures,
+		submitErr,
+		nil
+}
+
+func VerifC13NewMessage(
+	senderID group.MemberIndex,
+	resultHash beaconchain.DKGResultHash,
+	signature []byte,
+	publicKey []byte,
+	sessionID string,
+) *DKGResultHashSignatureMessage {
+	return &DKGResultHashSignatureMessage{
+		senderIndex: senderID,
+		resultHash:  resultHash,
+		signature:   signature,
+		publicKey:   publicKey,
+		sessionID:   sessionID,
+	}
+}
